@@ -266,3 +266,40 @@ func HarnessC15Check() {
 	}
 	verifCheckf(len(errs) == want, "ignore-pattern-not-applied-to-every-diagnostic", pat)
 }
+
+// HarnessC15MultiRepo: two repositories, each with its own `paths` ignore
+// configuration, linted in one run (either order): every file is filtered by
+// the configuration of its own repository, exactly as when it is linted alone.
+func HarnessC15MultiRepo() {
+	wf := "on: push\njobs:\n  j:\n    runs-on: ubuntu-latest\n    steps:\n      - run: echo ${{ unknown.x }}\n      - run: echo ${{ github.nope }}\n"
+	paths := []string{"/r/.github/workflows/a.yml", "/s/.github/workflows/b.yml"}
+	if verifIsNative() {
+		verifC15NativeMultiRepo(wf, verifChoose("order", 2))
+		return
+	}
+	verifC10Files = map[string]string{paths[0]: wf, paths[1]: wf}
+	verifC10Cfg = map[string]*Config{
+		"/r": {Paths: map[string]PathConfig{".github/workflows/*.yml": {Ignore: IgnorePatterns{regexp.MustCompile("undefined variable")}}}},
+		"/s": {Paths: map[string]PathConfig{".github/workflows/*.yml": {Ignore: IgnorePatterns{regexp.MustCompile("is not defined in object type")}}}},
+	}
+	verifSetCwd("/")
+	verifOverride("os.ReadFile", verifC10ReadFile)
+	verifOverride("findProject", verifC10FindProject)
+	verifOverride("loadRepoConfig", verifC10RepoConfig)
+	single := make([]string, len(paths))
+	for k, p := range paths {
+		l := &Linter{projects: NewProjects(), cwd: "", out: nil}
+		errs, err := l.LintFile(p, nil)
+		verifCheck(err == nil, "lint-failed")
+		single[k] = verifC10Digest(errs, p)
+		verifCheckf(len(errs) == 1, "each-repository-ignores-one-of-the-two-diagnostics", verifErrTextConc(errs))
+	}
+	ord := [][]int{{0, 1}, {1, 0}}[verifChoose("order", 2)]
+	l := &Linter{projects: NewProjects(), cwd: "", out: nil}
+	errs, err := l.LintFiles([]string{paths[ord[0]], paths[ord[1]]}, nil)
+	verifCheck(err == nil, "lint-failed")
+	verifReach("linted")
+	for k, p := range paths {
+		verifCheckf(verifC10Digest(errs, p) == single[k], "file-filtered-by-another-repository's-configuration", p)
+	}
+}
